@@ -1,2 +1,8 @@
 import AdaptixModel.Ops.C03
-def main : IO Unit := Adaptix.Protocol.serve Adaptix.Ops.C03.handle
+import AdaptixModel.Ops.NameStyle
+open Lean in
+def dispatch : Adaptix.Protocol.Handler := fun j =>
+  match j.getObjVal? "op" with
+  | .ok (Json.str "ns_convert") => Adaptix.Ops.NameStyle.handle j
+  | _ => Adaptix.Ops.C03.handle j
+def main : IO Unit := Adaptix.Protocol.serve dispatch
